@@ -559,8 +559,8 @@ func (s *State) evalIndexRangeExpression(left object.Object, leftIdx, rightIdx a
 	}
 	num := object.Len(left)
 	l, _ := Int64Value(leftIndex)
-	if l < 0 { // negative is relative to the end.
-		l = int64(num) + l
+	if l < 0 { // negative is relative to the end (and clamped to the start).
+		l = max(0, int64(num)+l)
 	}
 	var r int64
 	if nilRight {
